@@ -2,7 +2,8 @@ import Gomjml.Core.Expand
 /-! # Skeleton models of the content components (the "leaves" of the layout)
 
 `mj-text`, `mj-button`, `mj-image`, `mj-divider`, `mj-spacer`, `mj-table`, `mj-social` (+ elements), `mj-navbar` (+ links),
-`mj-accordion` (+ elements, title, text), `mj-carousel` (+ images): what each `Render` writes, at the level of tags, Outlook
+`mj-accordion` (+ elements, title, text), `mj-carousel` (+ images), with `mj-raw` between the children of social / navbar /
+accordion / accordion element: what each `Render` writes, at the level of tags, Outlook
 conditional markers (`co` / `cc`), not-Outlook markers (`nco` / `ncc`), author content (`.t`) and generated text (`fill`).
 Control flow follows the Go code: the same loops over children, the same index tests (first / last element), the same
 option tests (href → `<a>` wrapper, vertical mode, hamburger, icon position, thumbnails).  Tied to the implementation by
@@ -220,17 +221,28 @@ def tableToks (rows : Nat) (text : Bool) : List GTok :=
   [o "tr", o "td", o "table"] ++ (if rows = 0 then ite' text [t] else (List.replicate rows tableRow).flatten) ++
   [c "table", c "td", c "tr"]
 
+/-- `mj-raw` between the children of a component: written where it stands (`<i>content</i>` in the generated documents) -/
+def rawG (blank : Bool) : List GTok := if blank then [] else [o "i", t, c "i"]
+
 /-! ### mj-social -/
 
 structure SocEl where
-  icon : Bool      -- `src` resolves to something (known network or explicit src); without it the element writes nothing
   href : Bool
   text : Bool
 deriving Repr, DecidableEq
 
-/-- `MJSocialElementComponent.Render`, horizontal mode, called with `wrapMSO = false` by the parent -/
+inductive SocChild
+  | el (e : SocEl)
+  | raw (blank : Bool)
+deriving Repr, DecidableEq
+
+def SocChild.isEl : SocChild → Bool
+  | .el _ => true
+  | _ => false
+
+/-- `MJSocialElementComponent.Render`, horizontal mode, called with `wrapMSO = false` by the parent.  The icon cell is written
+    whether or not the element has an icon (an `<img>` without src), so the element never disappears with its text. -/
 def socElH (e : SocEl) : List GTok :=
-  if !e.icon then [] else
   [o "table", o "tbody", o "tr", o "td", o "table", o "tbody", o "tr", o "td"] ++
   (if e.href then [o "a", v "img", c "a"] else [v "img"]) ++
   [c "td", c "tr", c "tbody", c "table", c "td"] ++
@@ -239,62 +251,100 @@ def socElH (e : SocEl) : List GTok :=
 
 /-- … vertical mode: one row per element, the icon never linked, the text always in a `<span>` -/
 def socElV (e : SocEl) : List GTok :=
-  if !e.icon then [] else
   [o "tr", o "td", o "table", o "tbody", o "tr", o "td", v "img", c "td", c "tr", c "tbody", c "table", c "td"] ++
   ite' e.text [o "td", o "span", t, c "span", c "td"] ++ [c "tr"]
 
-/-- the horizontal loop of `MJSocialComponent.Render`: a separator conditional after every element but the last -/
-def socLoop : List SocEl → List GTok
-  | [] => []
-  | [e] => socElH e
-  | e :: r => socElH e ++ [.co, c "td", o "td", .cc] ++ socLoop r
+def socSep : List GTok := [.co, c "td", o "td", .cc]
 
-def socialToks (vertical : Bool) (els : List SocEl) : List GTok :=
+/-- the horizontal loop of `MJSocialComponent.Render` over the children in document order: raw content is written where it
+    stands; a separator conditional follows every element but the last (`rem` = elements still to come, this one included) -/
+def socLoop : Nat → List SocChild → List GTok
+  | _, [] => []
+  | rem, .raw b :: r => rawG b ++ socLoop rem r
+  | rem, .el e :: r => socElH e ++ (if rem > 1 then socSep else []) ++ socLoop (rem - 1) r
+
+def socKidV : SocChild → List GTok
+  | .el e => socElV e
+  | .raw b => rawG b
+
+def socialToks (vertical : Bool) (kids : List SocChild) : List GTok :=
+  let n := kids.countP SocChild.isEl
   [o "tr", o "td"] ++
-  (if vertical then [o "table", o "tbody"] ++ els.flatMap socElV ++ [c "tbody", c "table"]
-   else if els.isEmpty then [.co, o "table", o "tr", .cc, .co, c "tr", c "table", .cc]
-   else [.co, o "table", o "tr", o "td", .cc] ++ socLoop els ++ [.co, c "td", c "tr", c "table", .cc]) ++
+  (if vertical then [o "table", o "tbody"] ++ kids.flatMap socKidV ++ [c "tbody", c "table"]
+   else (if n > 0 then [.co, o "table", o "tr", o "td", .cc] else [.co, o "table", o "tr", .cc]) ++ socLoop n kids ++
+        (if n > 0 then [.co, c "td", c "tr", c "table", .cc] else [.co, c "tr", c "table", .cc])) ++
   [c "td", c "tr"]
 
 /-! ### mj-navbar -/
 
-/-- `renderInlineLinks`: the Outlook table is opened inside one conditional that the first link's cell closes; every further
-    link closes the previous cell and opens its own; `content` = the link has any content -/
-def navLoop : Bool → List Bool → List GTok
-  | _, [] => []
-  | first, content :: r =>
-    (if first then [o "td", .cc] else [.co, c "td", o "td", .cc]) ++ [o "a"] ++ ite' content [t] ++ [c "a"] ++ navLoop false r
+inductive NavChild
+  | link (content : Bool)
+  | raw (blank : Bool)
+deriving Repr, DecidableEq
 
-def navbarToks (hamburger : Bool) (links : List Bool) : List GTok :=
-  [o "tr", o "td"] ++
-  ite' hamburger [.nco, v "input", .ncc, o "div", o "label", o "span", fill, c "span", o "span", fill, c "span", c "label", c "div"] ++
-  [o "div", .co, o "table", o "tr"] ++ navLoop true links ++
-  (if links.isEmpty then [] else [.co, c "td"]) ++ [c "tr", c "table", .cc, c "div", c "td", c "tr"]
+def NavChild.isLink : NavChild → Bool
+  | .link _ => true
+  | _ => false
+
+def navLink (content : Bool) : List GTok := [o "a"] ++ ite' content [t] ++ [c "a"]
+
+/-- `renderInlineLinks`, the loop over the children in document order.  `op` = the conditional that opened the Outlook table is
+    still open (true only in front of the first child); `first` = no link written yet.  The first link's cell continues the
+    open conditional (or opens one, if raw content closed it); every further link closes the previous cell and opens its own;
+    raw content is written where it stands, outside any conditional. -/
+def navLoop : Bool → Bool → List NavChild → List GTok
+  | _, _, [] => []
+  | op, first, .raw b :: r => (if op then [.cc] else []) ++ rawG b ++ navLoop false first r
+  | op, first, .link cn :: r =>
+    (if first then (if op then [] else [.co]) ++ [o "td", .cc] else [.co, c "td", o "td", .cc]) ++ navLink cn ++ navLoop false false r
+
+def hamburgerToks : List GTok :=
+  [.nco, v "input", .ncc, o "div", o "label", o "span", fill, c "span", o "span", fill, c "span", c "label", c "div"]
+
+def navbarToks (hamburger : Bool) (kids : List NavChild) : List GTok :=
+  [o "tr", o "td"] ++ ite' hamburger hamburgerToks ++
+  [o "div", .co, o "table", o "tr"] ++ navLoop true true kids ++
+  (if kids.any NavChild.isLink then [.co, c "td"] else if kids.isEmpty then [] else [.co]) ++
+  [c "tr", c "table", .cc, c "div", c "td", c "tr"]
 
 /-! ### mj-accordion -/
 
+/-- the children of an `mj-accordion-element`, rendered in document order -/
+inductive AccPart
+  | title (content : Bool)
+  | text (content : Bool)
+  | raw (blank : Bool)
+deriving Repr, DecidableEq
+
 structure AccEl where
-  title : Option Bool      -- an `mj-accordion-title` child (the last one counts), with / without content
-  text : Option Bool       -- an `mj-accordion-text` child (the last one counts), with / without content
   iconLeft : Bool          -- icon-position="left"
+  parts : List AccPart
+deriving Repr, DecidableEq
+
+inductive AccChild
+  | el (e : AccEl)
+  | raw (blank : Bool)
 deriving Repr, DecidableEq
 
 def accIcon : List GTok := [.nco, o "td", v "img", v "img", c "td", .ncc]
 
+def accPartToks (iconLeft : Bool) : AccPart → List GTok
+  | .title content =>
+    [o "div", o "table", o "tbody", o "tr"] ++ ite' iconLeft accIcon ++ [o "td"] ++ ite' content [t] ++ [c "td"] ++
+    ite' (!iconLeft) accIcon ++ [c "tr", c "tbody", c "table", c "div"]
+  | .text content => [o "div", o "table", o "tbody", o "tr", o "td"] ++ ite' content [t] ++ [c "td", c "tr", c "tbody", c "table", c "div"]
+  | .raw b => rawG b
+
 def accElToks (e : AccEl) : List GTok :=
-  [o "tr", o "td", o "label", .nco, v "input", .ncc, o "div"] ++
-  (match e.title with
-   | none => []
-   | some content =>
-     [o "div", o "table", o "tbody", o "tr"] ++ ite' e.iconLeft accIcon ++ [o "td"] ++ ite' content [t] ++ [c "td"] ++
-     ite' (!e.iconLeft) accIcon ++ [c "tr", c "tbody", c "table", c "div"]) ++
-  (match e.text with
-   | none => []
-   | some content => [o "div", o "table", o "tbody", o "tr", o "td"] ++ ite' content [t] ++ [c "td", c "tr", c "tbody", c "table", c "div"]) ++
+  [o "tr", o "td", o "label", .nco, v "input", .ncc, o "div"] ++ e.parts.flatMap (accPartToks e.iconLeft) ++
   [c "div", c "label", c "td", c "tr"]
 
-def accordionToks (els : List AccEl) : List GTok :=
-  [o "tr", o "td", o "table", o "tbody"] ++ els.flatMap accElToks ++ [c "tbody", c "table", c "td", c "tr"]
+def accKidToks : AccChild → List GTok
+  | .el e => accElToks e
+  | .raw b => rawG b
+
+def accordionToks (kids : List AccChild) : List GTok :=
+  [o "tr", o "td", o "table", o "tbody"] ++ kids.flatMap accKidToks ++ [c "tbody", c "table", c "td", c "tr"]
 
 /-! ### mj-carousel (at least one image: without images the component returns an error) -/
 
@@ -324,9 +374,9 @@ inductive LeafM
   | divider
   | spacer
   | table (rows : Nat) (text : Bool)
-  | social (vertical : Bool) (els : List SocEl)
-  | navbar (hamburger : Bool) (links : List Bool)
-  | accordion (els : List AccEl)
+  | social (vertical : Bool) (kids : List SocChild)
+  | navbar (hamburger : Bool) (kids : List NavChild)
+  | accordion (kids : List AccChild)
   | carousel (thumbs : Bool) (first : Bool) (rest : List Bool)
 deriving Repr
 
@@ -345,8 +395,20 @@ def LeafM.toks : LeafM → List GTok
 
 def b2n (b : Bool) : Nat := if b then 1 else 0
 
-def SocEl.slots (e : SocEl) : Nat := if e.icon && e.text then 1 else 0
-def AccEl.slots (e : AccEl) : Nat := (match e.title with | some true => 1 | _ => 0) + (match e.text with | some true => 1 | _ => 0)
+def rawSlots (blank : Bool) : Nat := if blank then 0 else 1
+def SocChild.slots : SocChild → Nat
+  | .el e => b2n e.text
+  | .raw b => rawSlots b
+def NavChild.slots : NavChild → Nat
+  | .link cn => b2n cn
+  | .raw b => rawSlots b
+def AccPart.slots : AccPart → Nat
+  | .title cn => b2n cn
+  | .text cn => b2n cn
+  | .raw b => rawSlots b
+def AccChild.slots : AccChild → Nat
+  | .el e => (e.parts.map AccPart.slots).sum
+  | .raw b => rawSlots b
 
 /-- author content slots of a leaf -/
 def LeafM.slots : LeafM → Nat
@@ -357,9 +419,9 @@ def LeafM.slots : LeafM → Nat
   | .divider => 0
   | .spacer => 0
   | .table r tx => if r = 0 then b2n tx else r
-  | .social _ els => (els.map SocEl.slots).sum
-  | .navbar _ ls => (ls.map b2n).sum
-  | .accordion els => (els.map AccEl.slots).sum
+  | .social _ kids => (kids.map SocChild.slots).sum
+  | .navbar _ kids => (kids.map NavChild.slots).sum
+  | .accordion kids => (kids.map AccChild.slots).sum
   | .carousel _ _ _ => 0
 
 end Gomjml.Leaves
